@@ -19,19 +19,20 @@ RULE = ('2..4 per-thread programs of operation templates (syscalls with lookups,
 ASSUMPTIONS = ['decoders that by design read tables written by other threads are excluded by partitioning the resources']
 
 
-def stamp(i, p, progs):
+def stamp(i, p, progs, shared_clock=False):
     """timestamps belong to the records, not to the merge: position in the own program (a duplicated record keeps the
     timestamp of its original: two byte-identical records of one thread within one tick)"""
     k = p
     while k > 0 and progs[i][k] is progs[i][k - 1]:
         k -= 1
-    return 100000 * (i + 1) + 7 * k
+    # shared_clock: the CPUs log in the same ticks (records of different threads carry EQUAL timestamps)
+    return (1000 if shared_clock else 100000 * (i + 1)) + 7 * k
 
 
-def run_schedule(progs, order):
+def run_schedule(progs, order, shared_clock=False):
     """order: list of (prog index, position). returns per-tid results and final tables"""
     evs = [progs[i][p] for i, p in order]
-    real = EV.realize(evs, ts_list=[stamp(i, p, progs) for i, p in order])
+    real = EV.realize(evs, ts_list=[stamp(i, p, progs, shared_clock) for i, p in order])
     ident = {id(o): order[k] for k, o in enumerate(real)}
     parser = EV.new_traces_parser()
     per_tid = {}
@@ -77,8 +78,9 @@ def prop_interleave(ctx, case):
             pos[i] += 1
     for i, pr in enumerate(progs):
         inter += [(i, p) for p in range(pos[i], len(pr))]
-    r1, t1 = guard(run_schedule, progs, serial)
-    r2, t2 = guard(run_schedule, progs, inter)
+    shared_clock = len(case['schedule']) % 2 == 0
+    r1, t1 = guard(run_schedule, progs, serial, shared_clock)
+    r2, t2 = guard(run_schedule, progs, inter, shared_clock)
     for tid in sorted(set(r1) | set(r2)):
         a, b = r1.get(tid, []), r2.get(tid, [])
         if a != b:
@@ -116,6 +118,8 @@ def prop_interleave(ctx, case):
         cls.add('really-interleaved')
     if case.get('shared_names'):
         cls.add('same-calls-on-every-thread')
+    if shared_clock:
+        cls.add('equal-timestamps-across-threads')
     ctx.note(None, nontrivial=split and inter != serial, classes=cls)
 
 
